@@ -88,6 +88,78 @@ Theorem C04_mapped_via_matrix : forall (B : @mat ROps) (r : list R) i, (i < leng
   nth i (mapped_via_matrix B r) 0 = sumR (map (fun j => mget B i j * nth j r 0) (seq 0 (length r))).
 Proof. exact mapped_via_matrix_spec. Qed.
 
+(* ------------------------------------------------------------------ the convolver's frames as a linear operator (model C03) *)
+(* convolve_mapping_matrix is column-wise application of the frame operator Cop: B = Cop . M (the zero-entry skip is harmless) *)
+Theorem C04_blurred_mapping_matrix_is_operator_times_M : forall (c : @convolver ROps) (M : @mat ROps) n i p,
+  length M = n -> frames_ok c n -> (i < n)%nat -> (p < ncols M)%nat ->
+  mget (convolve_matrix c M) i p = sumR (map (fun s => mget M s p * Cop c i s) (seq 0 n)).
+Proof. exact convolve_matrix_is_Cop. Qed.
+Theorem C04_convolve_no_blurring_is_operator : forall (c : @convolver ROps) (img : list R) n i,
+  length img = n -> frames_ok c n -> (i < n)%nat ->
+  nth i (convolve_no_blurring c img) 0 = sumR (map (fun s => nth s img 0 * Cop c i s) (seq 0 n)).
+Proof. exact convolve_no_blurring_is_Cop. Qed.
+
+(* ------------------------------------------------------------------ every block of the w-tilde formalism is B_i^T N^-1 B_j *)
+(* [Bm e c n i p] = sum_s E e s p * Cop c i s: the blurred mapping matrix of a mapper, through its encoding.
+   [W_is_overlap c s W n]: W[d0][d1] = sum_i Cop c i d0 * Cop c i d1 / sigma_i^2 (the overlap identity, a hypothesis here). *)
+Theorem C04_wtilde_mapper_diagonal_block : forall noise K nfs (c : @convolver ROps) s e P a b,
+  let n := length nfs in
+  W_is_overlap c s (@wt_dense ROps noise K nfs) n -> enc_ok e P -> (a < P)%nat -> (b < P)%nat ->
+  let '(pre, idx, lens) := @preload ROps noise K nfs in
+  mget (@curv_preload ROps pre idx lens e P) a b =
+  sumR (map (fun i => Bm e c n i a * Bm e c n i b / (nth i s 0 * nth i s 0)) (seq 0 n)).
+Proof. exact wt_diag_block. Qed.
+Theorem C04_wtilde_mapper_mapper_block : forall noise K nfs (c : @convolver ROps) s e0 P0 e1 P1 a b,
+  let n := length nfs in
+  W_is_overlap c s (@wt_dense ROps noise K nfs) n -> enc_ok e0 P0 -> enc_ok e1 P1 -> (a < P0)%nat -> (b < P1)%nat ->
+  let '(pre, idx, lens) := @preload ROps noise K nfs in
+  mget (@off_diag ROps pre idx lens e0 P0 e1 P1) a b =
+  sumR (map (fun i => Bm e0 c n i a * Bm e1 c n i b / (nth i s 0 * nth i s 0)) (seq 0 n)).
+Proof. exact wt_off_block. Qed.
+Theorem C04_wtilde_mapper_func_block : forall (c : @convolver ROps) e P (Bf : @mat ROps) (s : list R) n a l,
+  frames_ok c n -> length Bf = n -> length (e_dw e) = n -> enc_ok e P -> (a < P)%nat -> (l < ncols Bf)%nat ->
+  mget (@off_mapper_func ROps e P (div_rows_sq Bf s) (image_frames c)) a l =
+  sumR (map (fun i => Bm e c n i a * mget Bf i l / (nth i s 0 * nth i s 0)) (seq 0 n)).
+Proof. exact wt_mapper_func_block. Qed.
+Theorem C04_wtilde_func_func_block : forall (B0 B1 : @mat ROps) (s : list R) n a b,
+  length B0 = n -> length B1 = n -> (forall i, (i < n)%nat -> nth i s 0 <> 0) -> (a < ncols B0)%nat -> (b < ncols B1)%nat ->
+  mget (dotTN (div_rows B0 s) (div_rows B1 s)) a b =
+  sumR (map (fun i => mget B0 i a * mget B1 i b / (nth i s 0 * nth i s 0)) (seq 0 n)).
+Proof. exact ff_block. Qed.
+
+(* ------------------------------------------------------------------ assembly over the ordered list of linear objects *)
+(* [off objs i] = number of parameters of the objects before object i; [ob objs i] = object i; [tp objs] = total *)
+(* blocks follow the order of the linear objects: columns off_i .. off_i + params_i of the stacked operated matrix are object i's *)
+Theorem C04_operated_matrix_blocks_follow_object_order : forall (c : @convolver ROps) objs n k i la,
+  (forall o, In o objs -> shape n (params o) (opmat c o)) -> (k < n)%nat -> (i < length objs)%nat -> (la < params (ob objs i))%nat ->
+  mget (op_matrix c objs n) k (off objs i + la) = mget (opmat c (ob objs i)) k la.
+Proof. exact op_matrix_cell. Qed.
+(* the w-tilde matrix before the diagonal term: after the mirror EVERY entry is the normal-equation entry of the stacked matrix,
+   whatever the order and kinds of the objects *)
+Theorem C04_wtilde_mirrored_is_normal_equations_partial : forall (c : @convolver ROps) noise K nfs objs (s : list R),
+  (0 < length nfs)%nat -> frames_ok c (length nfs) -> (forall i, (i < length nfs)%nat -> nth i s 0 <> 0) ->
+  W_is_overlap c s (@wt_dense ROps noise K nfs) (length nfs) -> (forall o, In o objs -> wf_obj c (length nfs) o) ->
+  forall a b, (a < tp objs)%nat -> (b < tp objs)%nat ->
+  shape (tp objs) (tp objs) (@F_wt_pre ROps c (fst (fst (@preload ROps noise K nfs))) (snd (fst (@preload ROps noise K nfs))) (snd (@preload ROps noise K nfs)) objs s) /\
+  mget (mirrored (@F_wt_pre ROps c (fst (fst (@preload ROps noise K nfs))) (snd (fst (@preload ROps noise K nfs))) (snd (@preload ROps noise K nfs)) objs s)) a b
+  = Snorm (op_matrix c objs (length nfs)) s (length nfs) a b.
+Proof. exact mirrored_wt_is_normal. Qed.
+(* InversionImagingWTilde.curvature_matrix = InversionImagingMapping.curvature_matrix, entry by entry, for every ordered list of
+   mappers and function lists, with or without regularization (the diagonal term included).
+   _partial: the overlap identity [W_is_overlap] and [frames_ok] for the convolver built by convolver_init are hypotheses here
+   (they are what w_tilde_curvature_value_from / frame_at_coordinates compute; checked numerically by the correspondence run). *)
+Theorem C04_curvature_wtilde_eq_mapping_partial : forall (c : @convolver ROps) noise K nfs objs (s : list R) eps a b,
+  let n := length nfs in
+  (0 < n)%nat -> frames_ok c n -> (forall i, (i < n)%nat -> nth i s 0 <> 0) ->
+  W_is_overlap c s (@wt_dense ROps noise K nfs) n -> (forall o, In o objs -> wf_obj c n o) ->
+  (a < tp objs)%nat -> (b < tp objs)%nat ->
+  mget (F_wt_gen c noise K nfs objs s eps) a b = mget (@F_mapping ROps c objs n s eps) a b.
+Proof. exact F_wt_eq_F_mapping. Qed.
+(* F_wt of the model is that function on the native noise map and the unmasked pixel list *)
+Theorem C04_F_wt_is_instance : forall c m K objs s eps,
+  @F_wt ROps c m K objs s eps = F_wt_gen c (@native ROps m s) K (unmasked m) objs s eps.
+Proof. exact F_wt_is_gen. Qed.
+
 Print Assumptions C04_data_vector_is_BT_Ninv_d.
 Print Assumptions C04_curvature_is_BT_Ninv_B.
 Print Assumptions C04_added_to_diag.
@@ -102,3 +174,13 @@ Print Assumptions C04_data_vector_via_w_tilde_data.
 Print Assumptions C04_off_diag_mapper_func.
 Print Assumptions C04_mapped_via_unique.
 Print Assumptions C04_mapped_via_matrix.
+Print Assumptions C04_blurred_mapping_matrix_is_operator_times_M.
+Print Assumptions C04_convolve_no_blurring_is_operator.
+Print Assumptions C04_wtilde_mapper_diagonal_block.
+Print Assumptions C04_wtilde_mapper_mapper_block.
+Print Assumptions C04_wtilde_mapper_func_block.
+Print Assumptions C04_wtilde_func_func_block.
+Print Assumptions C04_operated_matrix_blocks_follow_object_order.
+Print Assumptions C04_wtilde_mirrored_is_normal_equations_partial.
+Print Assumptions C04_curvature_wtilde_eq_mapping_partial.
+Print Assumptions C04_F_wt_is_instance.
